@@ -382,6 +382,19 @@ func init() {
 				add(fmt.Sprintf("fsfail/verify/at%d", j), v, k1, w3)
 			}
 		}
+		// 4c. other kinds of file-system failure: "exists", "too many open files" once and from then on, "no space" from
+		// then on (a resource that stays exhausted must not make the call wait for it forever); base schedules only
+		for j := 1; j <= 6; j++ {
+			for _, kind := range []struct {
+				errno   string
+				persist bool
+			}{{"EEXIST", false}, {"EMFILE", false}, {"EMFILE", true}, {"ENOSPC", true}} {
+				m := NewDrv("mkdir", ok3)
+				m.Exts = []string{"b", "d"}
+				m.FSFailAt, m.FSErrno, m.FSPersist = j, kind.errno, kind.persist
+				add(fmt.Sprintf("fsfail/mkdir/at%d-%s-persist=%v", j, kind.errno, kind.persist), m, 0, w3)
+			}
+		}
 		// 5. reader failure / reader-triggered cancellation at every line boundary and inside a line
 		for _, off := range []int{0, 2, 4, 10, 12, 20, 24} {
 			d := NewDrv("out-text", ok3)
